@@ -98,6 +98,25 @@ func c01Canon(rings []geom.Path) []string {
 	return out
 }
 
+// c01CloseRings repeats the first vertex of every ring at its end (in place; a *Bounds has no rings)
+func c01CloseRings(g geom.Polygonal) {
+	closeP := func(p geom.Polygon) {
+		for i, r := range p {
+			if len(r) > 0 && r[0] != r[len(r)-1] {
+				p[i] = append(append(geom.Path{}, r...), r[0])
+			}
+		}
+	}
+	switch x := g.(type) {
+	case geom.Polygon:
+		closeP(x)
+	case geom.MultiPolygon:
+		for _, p := range x {
+			closeP(p)
+		}
+	}
+}
+
 func c01Rings(g geom.Polygonal) [][]geom.Path {
 	var out [][]geom.Path
 	if isNilPolygonal(g) {
@@ -170,6 +189,12 @@ func runC01(c map[string]interface{}) []Event {
 	e["out"] = safely(func() {
 		A := buildOperand(c["A"], str(c["ta"]), scale)
 		B := buildOperand(c["B"], str(c["tb"]), scale)
+		// the rings of the operands are spelled without the closing vertex, or (every third case) with it: the same regions
+		closedIn := (len(arr(c["A"]))+2*len(arr(c["B"]))+len(str(c["op"]))+int(seed()))%3 == 0
+		if closedIn {
+			c01CloseRings(A)
+			c01CloseRings(B)
+		}
 		if (len(arr(c["A"]))+len(arr(c["B"]))+int(seed()))%2 == 0 {
 			// the ring lists of all polygons of both operands are sub-slices of one array (as after decoding a whole layer into
 			// one buffer), interleaved, each with the rest of the array as spare capacity: the values are what they were
@@ -197,8 +222,12 @@ func runC01(c map[string]interface{}) []Event {
 		}
 		e["again"] = reflect.DeepEqual(first, c01Canon(rings2))
 		// ... and the operands are still the values they were
-		e["inputsame"] = reflect.DeepEqual(c01Rings(A), c01Rings(buildOperand(c["A"], str(c["ta"]), scale))) &&
-			reflect.DeepEqual(c01Rings(B), c01Rings(buildOperand(c["B"], str(c["tb"]), scale)))
+		fa, fb := buildOperand(c["A"], str(c["ta"]), scale), buildOperand(c["B"], str(c["tb"]), scale)
+		if closedIn {
+			c01CloseRings(fa)
+			c01CloseRings(fb)
+		}
+		e["inputsame"] = reflect.DeepEqual(c01Rings(A), c01Rings(fa)) && reflect.DeepEqual(c01Rings(B), c01Rings(fb))
 		if isF1 {
 			out := make([]interface{}, len(rings))
 			for i, ring := range rings {
